@@ -59,6 +59,7 @@ FIXES = [
  ('C19',"the hyperlink of a binary file's header points at the file",'diff_header.rs: the note ` (binary file)` was part of the name when the header was formatted, so the OSC 8 target (and the input of --file-regex-replacement) was `<file> (binary file)` (was KF-C19-1)'),
  ('C14','is written before a submodule entry that follows it','submodule.rs: a `Submodule <path> a..b:` entry (diff.submodule=log) following a section without hunks was written before that section\'s header, and a pending mode change was attached to the submodule line (also C10)'),
  ('C14','a quoted path that contains a space is unquoted in the ---/+++ lines too','diff_header.rs: git writes `--- "a/\\303\\274 b.txt"<TAB>`; the quotes were looked for before the tab was removed and stayed, with the a/ b/ prefixes inside them: a modified file `ü b.txt` was shown as a rename `"a/..." -> "b/..."` (real `git diff` output)'),
+ ('C14','no second file header for plain diff -u input when the file style is raw','diff_header.rs: with --raw / --file-style raw, plain `diff -u` input got a decorated `a -> b` file header in addition to its raw ---/+++ lines (after the hunk header, or at the end of the input): the pair of names was never recorded as shown and the pending-header check asked for the style of a hunk line (also C10: delta(A)++delta(B) differed from delta(A++B))'),
 ]
 out = []
 for prop, pat, what in FIXES:
